@@ -86,9 +86,20 @@ func refRate(s string) (defined, accept bool, n int, unit time.Duration) {
 	return true, true, n, d
 }
 
-func rateStrings(maxLen int) hlib.Suite {
-	alpha := []string{"0", "1", "5", "/", "s", "m", "h", ".", "-", "+", " "}
-	return hlib.Suite{Name: fmt.Sprintf("rate-strings/len<=%d", maxLen), Weight: 3, Run: func(r *hlib.Rec) {
+var (
+	rateAlpha     = []string{"0", "1", "5", "/", "s", "m", "h", ".", "-", "+", " "}
+	rateAlphaWide = []string{"0", "1", "5", "9", "/", "s", "m", "h", "n", "u", "µ", ".", "-", "+", " ", "x", "e", "E", "_", "d"}
+)
+
+func rateStrings(maxLen int) hlib.Suite { return rateStringsOver("", rateAlpha, maxLen) }
+
+// rateStringsWide: shorter strings over more symbols (all Go duration units, a
+// fourth digit, and the characters other number syntaxes use: hex, exponent,
+// digit separators).
+func rateStringsWide(maxLen int) hlib.Suite { return rateStringsOver("-20-symbols", rateAlphaWide, maxLen) }
+
+func rateStringsOver(tag string, alpha []string, maxLen int) hlib.Suite {
+	return hlib.Suite{Name: fmt.Sprintf("rate-strings%s/len<=%d", tag, maxLen), Weight: 3, Run: func(r *hlib.Rec) {
 		quirks := 0
 		allStrings(alpha, maxLen, func(s string) bool {
 			if r.Expired() {
@@ -604,9 +615,9 @@ func yamlBytes(maxLen int) hlib.Suite {
 
 func suites(tier string) []hlib.Suite {
 	if tier == "quick" {
-		return []hlib.Suite{rateStrings(6), stagesStrings(6), cliSuite(false), yamlSuite(true), yamlBytes(2)}
+		return []hlib.Suite{rateStrings(6), rateStringsWide(4), stagesStrings(6), cliSuite(false), yamlSuite(true), yamlBytes(2)}
 	}
-	return []hlib.Suite{rateStrings(7), stagesStrings(7), cliSuite(true), yamlSuite(true), yamlBytes(3)}
+	return []hlib.Suite{rateStrings(7), rateStringsWide(5), stagesStrings(7), cliSuite(true), yamlSuite(true), yamlBytes(3)}
 }
 
 func main() { hlib.EnumMain("C14", suites) }
